@@ -14,6 +14,7 @@ import gens_orders
 import gens_events
 import gens_bancor
 import gens_codec
+import gens_conc
 import vlib
 
 # model-checking configuration per family and tier: (module, cfg)
@@ -203,6 +204,14 @@ def codec(tier, seed):
     return gens_codec.codec(rnd, {"quick": 40, "thorough": 1000}[tier]) + gens_codec.check_variants() + regress("codec")
 
 
+def concurrency(tier, seed):
+    rnd = random.Random("%d/concurrency" % seed)
+    raw = vlib.tlc_generate_raw("Concurrency", "gen/MCConcurrencyGen.cfg")
+    sch = gens_conc.schedules_from_model(raw)
+    return gens_conc.concurrency(rnd, {"quick": 16, "thorough": 400}[tier], sample(rnd, sch, 200)) + regress("concurrency")
+
+
+MC["concurrency"] = {"quick": ("Concurrency", "mc/MCConcurrency.cfg"), "thorough": ("Concurrency", "mc/MCConcurrency.cfg")}
 MC["codec"] = None
 MC["bancor"] = None
 MC["events"] = {"quick": ("EventsStore", "mc/MCEvents_q.cfg"), "thorough": ("EventsStore", "mc/MCEvents.cfg")}
@@ -210,5 +219,5 @@ MC["rewards"] = {"quick": ("MCRewards", "mc/MCRewards.cfg"), "thorough": ("MCRew
 MC["statesync"] = {"quick": ("Durability", "mc/MCDurability_C29.cfg"), "thorough": ("Durability", "mc/MCDurability_C29_t.cfg")}
 MC["export"] = None
 MC["determinism"] = None
-BUILDERS = {"codec": codec, "bancor": bancor, "events": events, "rewards": rewards, "statesync": statesync, "export": export, "determinism": determinism,"markets": markets, "staking": staking, "ledger": ledger, "durability": durability, "crash": lambda tier, seed: crash(tier, seed) + crash_enumeration(tier, seed)}
+BUILDERS = {"concurrency": concurrency, "codec": codec, "bancor": bancor, "events": events, "rewards": rewards, "statesync": statesync, "export": export, "determinism": determinism,"markets": markets, "staking": staking, "ledger": ledger, "durability": durability, "crash": lambda tier, seed: crash(tier, seed) + crash_enumeration(tier, seed)}
 RANDOMISED = True
